@@ -71,6 +71,14 @@ func GenUniverse(t *rapid.T, env *Env) *UTXOLedger {
 		}
 		l.Add(op, Entry{Denomination: d, Address: addr, Lock: lock})
 	}
+	if Chance(t, 40, "uPair") { // two equal unlocked bills worth one bill of the next denomination
+		dn := sample(t, []uint8{1, 3, 5, 7, 8}, "uPairDenom")
+		h := common.BytesToHash(crypto.Keccak256([]byte("verif-qigen-universe-pair")))
+		h[2] = lb
+		for i := 0; i < 2; i++ {
+			l.Add(types.OutPoint{TxHash: h, Index: uint16(i)}, Entry{Denomination: dn, Address: env.Pool.Qi[Uniform(t, len(env.Pool.Qi), "uKey")].AddrBytes()})
+		}
+	}
 	return l
 }
 
@@ -103,9 +111,11 @@ const (
 	MQuaiOwned   = "quai-owned-utxo"
 
 	MSameBlock = "spend-same-block-output"
+
+	MRespentEarlier = "respend-of-earlier-block"
 )
 
-var forbidding = map[string]bool{MDupIn: true, MRespent: true, MUnknown: true, MNonOwner: true, MWrongLedger: true,
+var forbidding = map[string]bool{MDupIn: true, MRespent: true, MRespentEarlier: true, MUnknown: true, MNonOwner: true, MWrongLedger: true,
 	MLocked: true, MOverspend: true, MBadSig: true, MBadDenomIn: true}
 
 // IsForbidding reports whether a mutation tag is meant to make the model forbid the transaction.
@@ -790,6 +800,7 @@ func (g *txGen) mutate(d *draft, ineligibleZones []byte) string {
 	}
 	add(MDupIn, 6, hasIns)
 	add(MRespent, 8, len(led.Spent) > 0)
+	add(MRespentEarlier, 20, len(led.Gone) > 0)
 	add(MUnknown, 3, true)
 	add(MNonOwner, 3, hasIns)
 	add(MWrongLedger, 1, hasIns)
@@ -799,7 +810,7 @@ func (g *txGen) mutate(d *draft, ineligibleZones []byte) string {
 	add(MBadSig, 4, hasIns)
 	add(MBadDenomOut, 1, len(d.outs) > 0)
 	add(MOutLock, 1, len(d.outs) > 0)
-	add(MMerge, 2, len(d.ins) > 1)
+	add(MMerge, 2, hasIns)
 	add(MReuseAddr, 2, hasIns && len(d.outs) > 0)
 	add(MIneligible, 1, len(ineligibleZones) > 0 && len(d.outs) > 0)
 	add(MLowFee, 2, hasIns)
@@ -849,6 +860,14 @@ func (g *txGen) mutate(d *draft, ineligibleZones []byte) string {
 		}
 		d.ins = append(d.ins, g.inFor(rec.Item, k))
 		claim(rec.Entry.Denomination)
+	case MRespentEarlier:
+		rec := led.Gone[Uniform(t, len(led.Gone), "goneWhich")]
+		k := env.Pool.ByAddr(rec.Entry.Address)
+		if k == nil {
+			k = anyQi()
+		}
+		d.ins = append(d.ins, g.inFor(rec.Item, k))
+		claim(rec.Entry.Denomination)
 	case MUnknown:
 		var op types.OutPoint
 		items := led.Items()
@@ -863,7 +882,7 @@ func (g *txGen) mutate(d *draft, ineligibleZones []byte) string {
 				} else {
 					op.Index--
 				}
-				if _, live := led.Get(op); !live && !led.SpentInBlock(op) {
+				if _, live := led.Get(op); !live && !led.SpentInBlock(op) && !led.SpentEarlier(op) {
 					break
 				}
 			}
@@ -933,6 +952,33 @@ func (g *txGen) mutate(d *draft, ineligibleZones []byte) string {
 		j := irange(t, 0, len(d.outs)-1, "outWhich")
 		d.outs[j].Lock = big.NewInt(int64(sample(t, []int{1, 100, 1 << 40}, "outLock")))
 	case MMerge:
+		// preferred: two spendable bills of a denomination worth half of the next one are added as
+		// inputs and come out as one bill of the next denomination (fee unchanged)
+		have := map[types.OutPoint]bool{}
+		for _, in := range d.ins {
+			have[in.op] = true
+		}
+		spend, _ := g.spendable()
+		merged := false
+		for _, dn := range []uint8{1, 3, 5, 7, 8} {
+			var pair []Item
+			for _, it := range spend {
+				if it.Entry.Denomination == dn && !have[it.OutPoint] && len(pair) < 2 {
+					pair = append(pair, it)
+				}
+			}
+			if len(pair) == 2 {
+				for _, it := range pair {
+					d.ins = append(d.ins, g.inFor(it, env.Pool.ByAddr(it.Entry.Address)))
+				}
+				d.outs = append(d.outs, types.TxOut{Denomination: dn + 1, Address: g.freshLocal()})
+				merged = true
+				break
+			}
+		}
+		if merged {
+			break
+		}
 		fee := d.sumIn() - d.sumOut()
 		if fee < 0 {
 			fee = 0
